@@ -333,7 +333,17 @@ func (fc *fnCtx) execCall(st *state, ins ssa.Instruction, c *ssa.CallCommon, res
 			vals = append(vals, fc.freshVal(st, "ext", sig.Results().At(k).Type()))
 		}
 	default:
-		unsup("call to %s has no contract", name)
+		var callee *ssa.Function
+		switch f := c.Value.(type) {
+		case *ssa.Function:
+			callee = f
+		case *ssa.MakeClosure:
+			callee = f.Fn.(*ssa.Function)
+		}
+		if callee == nil || c.IsInvoke() || len(callee.FreeVars) > 0 {
+			unsup("call to %s has no contract", name)
+		}
+		vals = fc.inlineCall(st, callee, args)
 	}
 	for k := range vals {
 		bind[fmt.Sprintf("$result%d", k)] = vals[k]
